@@ -508,8 +508,34 @@ func c20TypeTables(c *Ctx) {
 		c.CheckerFail("type.tables", "anchor TypeString / ValidIdentifier (SSA) does not resolve")
 		return
 	}
-	// the WriteString(name) of an attribute name must be dominated by an If on ValidIdentifier(name)
+	// a bare attribute name (a string that is neither a constant nor the result of a formatting or
+	// TypeString call) is written — directly, or returned by a helper whose result is written —
+	// only under the true edge of hclsyntax.ValidIdentifier
 	n := 0
+	guardedBy := func(b *ssa.BasicBlock) bool {
+		for d := b; d != nil; d = d.Idom() {
+			idom := d.Idom()
+			if idom == nil {
+				break
+			}
+			if iff, ok := idom.Instrs[len(idom.Instrs)-1].(*ssa.If); ok && condCalls(iff.Cond, vi, map[ssa.Value]bool{}) {
+				return true
+			}
+		}
+		return false
+	}
+	bare := func(v ssa.Value) bool {
+		switch v.(type) {
+		case *ssa.Const, *ssa.Call:
+			return false
+		}
+		return isBasicString(v.Type())
+	}
+	checkSite := func(fn *ssa.Function, b *ssa.BasicBlock, pos token.Pos) {
+		n++
+		c.Check(guardedBy(b), "type.tables", "ext/typeexpr."+fn.Name()+":bare-attribute-name", pos, "bare only under hclsyntax.ValidIdentifier",
+			"an object attribute name is printed bare without hclsyntax.ValidIdentifier deciding it: names that the parser accepts as identifiers may be quoted (and then not parse back), or vice versa")
+	}
 	for _, b := range ts.Blocks {
 		for _, ins := range b.Instrs {
 			call, ok := ins.(*ssa.Call)
@@ -520,27 +546,24 @@ func c20TypeTables(c *Ctx) {
 			if cal == nil || cal.Name() != "WriteString" || len(call.Call.Args) != 2 {
 				continue
 			}
-			// argument is the attribute name: an element of the sorted names slice
 			arg := call.Call.Args[1]
-			if _, isConst := arg.(*ssa.Const); isConst {
+			if bare(arg) {
+				checkSite(ts, b, call.Pos())
 				continue
 			}
-			if _, isCall := arg.(*ssa.Call); isCall {
-				continue // TypeString(aty)
-			}
-			n++
-			guarded := false
-			for d := b; d != nil; d = d.Idom() {
-				idom := d.Idom()
-				if idom == nil {
-					break
+			// a helper of this package that returns the text to write
+			if hc, ok := arg.(*ssa.Call); ok {
+				h := hc.Call.StaticCallee()
+				if h == nil || h == ts || fnPkg(h) == nil || fnPkg(h) != fnPkg(ts) {
+					continue
 				}
-				if iff, ok := idom.Instrs[len(idom.Instrs)-1].(*ssa.If); ok && condCalls(iff.Cond, vi, map[ssa.Value]bool{}) {
-					guarded = true
+				c.Fn(FuncName(h))
+				for _, hb := range h.Blocks {
+					if ret, ok := hb.Instrs[len(hb.Instrs)-1].(*ssa.Return); ok && len(ret.Results) == 1 && bare(ret.Results[0]) {
+						checkSite(h, hb, ret.Pos())
+					}
 				}
 			}
-			c.Check(guarded, "type.tables", "ext/typeexpr.TypeString:bare-attribute-name", call.Pos(), "bare only under hclsyntax.ValidIdentifier",
-				"an object attribute name is printed bare without hclsyntax.ValidIdentifier deciding it: names that the parser accepts as identifiers may be quoted (and then not parse back), or vice versa")
 		}
 	}
 	c.Floor("type.tables bare names", n, 1, "attribute name in object({…})")
